@@ -150,3 +150,12 @@ CHECKS['C07'] = dict(title='Arguments from a string, a file or the environment e
     rule='part 1: word list x style vector (odometer); part 2: configuration x use sequence x source vector in {A,P,F,E}^n x layout x decoration; states = cases, transitions = make_arg_array/evalArguments calls',
     bound={'quick': 'words <= 3 chars, lists <= 3 (3rd level single chars); lines <= 2 uses', 'thorough': 'lists of 3 with words <= 2 chars; lines <= 3 uses'},
     assumptions=['the environment variable is $PROG (upper-cased program name), HOME is a scratch directory owned by the worker'])
+
+CHECKS['C08'] = dict(title='Evaluating through an argument group equals one handler owning all arguments', engine='xenum',
+    harness=['harness/c08_groups.cpp'], flags='asan', lib=True, level='model_checking', deadline={'quick': 300, 'thorough': 2400}, hang_s=60,
+    technique='bounded-exhaustive differential enumeration: rule-matrix configurations x ALL set partitions into member handlers x all lines up to a depth, Groups evaluation against single-handler evaluation',
+    level_text='every configuration of the C02/C03 rule matrix x every set partition of its arguments into <= 3 member handlers (both member creation orders) x every line of <= 2 (quick) / <= 3 (thorough) uses in canonical spelling + 1 deviation: Groups::evalArguments must accept/reject and store exactly like one Handler with the merged definition; plus duplicate-key definitions across two members in all creation/definition orders',
+    level_note='reference is the single Handler (itself checked against the abstract evaluator by C01-C03); partitions that separate constraint partners are skipped; the Groups singleton is reset before and after every case',
+    rule='configuration x partition (restricted growth strings) x member creation order x use sequence x spelling; states = (configuration, partition), transitions = Groups::evalArguments calls',
+    bound={'quick': 'lines <= 2 uses, abbreviations on', 'thorough': 'lines <= 3 uses, abbreviations on and off'},
+    assumptions=['abbreviations are only spelled when they are unambiguous in the merged definition'])
